@@ -112,6 +112,7 @@ def rule_raw_iter(ctx, repo):
     opsrc = [norm(s.value) for s in lp.body if isinstance(s, ast.Assign) and norm(s.targets[0]) == 'opcode']
     r.check(opsrc == ['self[i]'], 'opcode-byte', common.site_of(fi, lp), 'opcode = self[i]', 'opcode is read as %s' % opsrc)
     widths = {0x4c: 1, 0x4d: 2, 0x4e: 4}
+    sure_keys = set()
     for v in range(256):
         key = c06.opn(v) if v > 0x4b or v == 0 else '0x%02x' % v
         paths = tr.trace(body, {'opcode': v})
@@ -170,6 +171,10 @@ def rule_raw_iter(ctx, repo):
                                     guarded = True
                     if not guarded:
                         problems.append('the length bytes of %s are read without the guard `%s` (guards on this path: %s)' % (c06.opn(v), want_g, sorted(k for k in p.assume if 'len(self)' in k)))
+                        if terms == {(k, 8 * k) for k in range(w)}:
+                            # what is read is known (w bytes at the cursor) and no test on this path keeps w bytes available:
+                            # a fact about the path, whatever else was rewritten
+                            sure_keys.add(key)
                     skips = [s_ for s_ in stmts if isinstance(s_, ast.AugAssign) and norm(s_.target) == 'i' and isinstance(s_.op, ast.Add)
                              and repo.fold(s_.value, fi.module, cls=fi.cls, env={'opcode': v}) == w]
                     if 'i += %d' % w not in texts and not skips:
@@ -194,7 +199,7 @@ def rule_raw_iter(ctx, repo):
         if not yields and v > 0x4e:
             problems.append('no completing path')
         if problems:
-            r.violated(key, common.site_of(fi, lp), '%s: %s' % (key, '; '.join(sorted(set(problems)))))
+            r.violated(key, common.site_of(fi, lp), '%s: %s' % (key, '; '.join(sorted(set(problems)))), sure=key in sure_keys)
         else:
             r.ok(key, common.site_of(fi, lp), '%d path(s)' % len(paths))
 
@@ -620,6 +625,7 @@ def rule_sigops(ctx, repo, eng):
         return
     lp = loops[0]
     opv = norm(lp.target.elts[0])
+    datav = norm(lp.target.elts[1]) if len(lp.target.elts) > 1 and isinstance(lp.target.elts[1], ast.Name) else None
     # the last-opcode variable: assigned `= opv` at the end of the body
     lastv = None
     for s in lp.body:
@@ -658,7 +664,15 @@ def rule_sigops(ctx, repo, eng):
             lasts = range(256) if v in multi else (0x52,)
             for lv in lasts:
                 rows += 1
-                paths = tr.trace(body, {opv: v, facc: acc, lastv: lv})
+                env_ = {opv: v, facc: acc, lastv: lv}
+                if datav:
+                    # raw_iter yields the pushed bytes for opcodes up to OP_PUSHDATA4 and None for every other opcode
+                    env_[datav] = None if v > 0x4e else (b'' if v == 0 else b'\x00')
+                paths = tr.trace(body, env_)
+                if len(paths) == 1 and paths[0].end in ('continue', 'break', 'return'):
+                    bad.setdefault('%s:%s' % (c06.opn(v), 'accurate' if acc else 'legacy'), []).append(
+                        (v, lv, acc, 'the iteration ends with `%s` before the previous-opcode variable is updated: the operation after it sees a stale previous opcode' % paths[0].end))
+                    continue
                 if len(paths) != 1:
                     unfolded.append((v, lv, acc, sorted({k_ for p_ in paths for k_ in p_.assume})[:2]))
                     continue
